@@ -763,8 +763,9 @@ func dkgRootAnswered(run *mon.Run) {
 						_ = in.Start(bytes.Repeat([]byte{byte(id + 9)}, 32))
 						return &node{in: in, rp: rp}
 					}
-					nP, nB := mk(P), mk(B)
-					if nP == nil || nB == nil {
+					// nB2: the same bystander seeing the same broadcasts in the other order (answer before complaint)
+					nP, nB, nB2 := mk(P), mk(B), mk(B)
+					if nP == nil || nB == nil || nB2 == nil {
 						continue
 					}
 					problem := ""
@@ -778,22 +779,31 @@ func dkgRootAnswered(run *mon.Run) {
 						_ = nP.in.HandleBroadcastMsg(dealer, vec)
 						_ = nB.in.HandleBroadcastMsg(dealer, vec)
 						_ = nB.in.HandlePrivateMsg(dealer, shareB)
+						_ = nB2.in.HandleBroadcastMsg(dealer, vec)
+						_ = nB2.in.HandlePrivateMsg(dealer, shareB)
 						if shareP != nil {
 							_ = nP.in.HandlePrivateMsg(dealer, shareP)
 						}
 						_ = nP.in.NextTimeout()
 						_ = nB.in.NextTimeout()
-						// round 2: P's complaint(s) reach B, the dealer's answer reaches both
+						_ = nB2.in.NextTimeout()
+						// round 2: P's complaint(s) reach B, the dealer's answer reaches both; B2 sees the
+						// answer first and the complaint(s) afterwards
 						for _, bc := range nP.rp.bcast {
 							_ = nB.in.HandleBroadcastMsg(P, bc)
 						}
 						if answer != nil {
 							_ = nP.in.HandleBroadcastMsg(dealer, answer)
 							_ = nB.in.HandleBroadcastMsg(dealer, answer)
+							_ = nB2.in.HandleBroadcastMsg(dealer, answer)
+						}
+						for _, bc := range nP.rp.bcast {
+							_ = nB2.in.HandleBroadcastMsg(P, bc)
 						}
 						_ = nP.in.NextTimeout()
 						_ = nB.in.NextTimeout()
-						for _, nd := range []*node{nP, nB} {
+						_ = nB2.in.NextTimeout()
+						for _, nd := range []*node{nP, nB, nB2} {
 							_, gpk, _, err := nd.in.End()
 							nd.err = err
 							if err == nil {
@@ -809,6 +819,10 @@ func dkgRootAnswered(run *mon.Run) {
 					}
 					if (nP.err == nil) != (nB.err == nil) || (nP.err == nil && !bytes.Equal(nP.gpk, nB.gpk)) {
 						run.Violate("C07:root-polynomial-answered:disagree:answer-"+ak, fmt.Sprintf("Feldman-VSS-Qual (n=%d,t=%d), polynomial with a root at the complainer's point, complainer's private message %q, dealer's answer %q: the complainer ends with %v, a bystander who saw the same broadcasts ends with %v", n, t, ps, ak, nP.err, nB.err), repm)
+						return
+					}
+					if (nB2.err == nil) != (nB.err == nil) || (nB.err == nil && !bytes.Equal(nB2.gpk, nB.gpk)) {
+						run.Violate("C07:root-polynomial-answered:disagree:order:answer-"+ak, fmt.Sprintf("Feldman-VSS-Qual (n=%d,t=%d), polynomial with a root at the complainer's point, complainer's private message %q, dealer's answer %q: a bystander who received complaint then answer ends with %v, one who received answer then complaint ends with %v", n, t, ps, ak, nB.err, nB2.err), repm)
 						return
 					}
 					run.Shape(fmt.Sprintf("root-answered|%s|%s|%v", ak, ps, nP.err == nil))
